@@ -389,6 +389,13 @@ pub fn generate(seed: u64, tier: Tier) -> Case {
         worlds.push(World::from_files(ptr, p.files()));
     }
 
+    // One name coincidence, applied to every world of the chain alike (module paths stay as
+    // they are: what is related to what must not change).
+    if rng.chance(1, 8) {
+        if let Some((from, to)) = crate::mutate::coincide(&mut rng, &mut worlds, false) {
+            notes.push(format!("coincidence:{from}->{to}"));
+        }
+    }
     let mut builds = vec![];
     for w in 0..worlds.len() {
         for _ in 0..(if rng.chance(1, 3) { 2 } else { 1 }) {
